@@ -38,6 +38,9 @@ MALFORMED = [('if_if_loop', '<if case="1"><if case="1"><loop value="v">{var:v}</
              # end of input with two and more nested block tags still open (the parser unwinds its stack of open tags innermost first)
              # (well-formed) an array loop after a sorted object loop at the same level: the loop key of the first must not survive into the second
              ('sorted_obj_then_array', '<loop set="g" value="x" sort="ascend">{var:x}:</loop>|<loop set="a" value="x">{var:x},</loop>', 8),
+             # an unterminated {math: followed by another tag; </loop> while an {svar: or an <if> opened inside the loop is still open
+             ('math_then_math', '{math: 1 {math: 2}', 0), ('math_then_svar', 'a{math:1+{svar:p, {var:a}}', 4), ('loop_svar_endloop', '<loop value="v">{svar:</loop>', 3),
+             ('loop_if_endloop', '<loop value="v"><if case="1">x</loop>', 3), ('loop_svar_var_endloop', '<loop value="v">{svar:p, {var:v}</loop>}', 3),
              ('unclosed_if_if', '<if case="1">A<if case="1">B', 0), ('unclosed_loop_loop', '<loop value="v"><loop set="v" value="w">{var:w}', 6),
              ('unclosed_if_loop_misnested', '<if case="1"><loop value="v">x</if>', 3), ('unclosed_if_if_if', '<if case="1"><if case="1"><if case="1">x', 0)]
 def queries(tier):
